@@ -72,8 +72,9 @@ type S struct {
 	Deadlock bool
 	Races    []string
 	// modelled locks (own mutex: enabled-functions read them while the controller holds mu)
-	lockMu sync.Mutex
-	locks  map[string]int // lock name -> holder thread id (absent = free)
+	lockMu   sync.Mutex
+	locks    map[string]int // lock name -> holder thread id (absent = free)
+	objNames map[any]string
 	// Log collects observations of harness threads (appended under mu).
 	Log []string
 }
@@ -426,7 +427,7 @@ func (s *S) loop() {
 type Explorer struct {
 	// Exec runs one execution with the given choice prefix and returns it together with the
 	// scenario's verdict for this execution (nil = property held).
-	Exec func(prefix []int) (*Execution, []string)
+	Exec  func(prefix []int) (*Execution, []string)
 	Bound int
 	// Stats
 	Executions int
@@ -438,9 +439,9 @@ type Explorer struct {
 }
 
 type Found struct {
-	Prefix  []int
-	Trace   []string
-	Log     []string
+	Prefix   []int
+	Trace    []string
+	Log      []string
 	Problems []string
 }
 
